@@ -1370,4 +1370,51 @@ theorem release_drops_export_core (s : State) (f b : Nat) (l : List Nat)
       · simp [release, hl, hk, exportsOn]
 
 
+/-- In the model a release that calls a destructor has emptied and marked the wrapper before:
+the activation (`opRelease` pushes the frame onto *this* state) starts afterwards. -/
+theorem release_marks {s : State} {x w : Nat} {l : List Nat} (h : (release s x).2 = .ok (w :: l)) :
+    ∃ o, (release s x).1.objs w = some o ∧ o.kind = .gcp none none ∧ o.released = true := by
+  cases hl : s.live x with
+  | none => simp [release, hl] at h
+  | some o =>
+    cases hk : o.kind with
+    | py t fl => simp [release, hl, hk] at h
+    | frame pins => simp [release, hl, hk] at h
+    | handle a b => simp [release, hl, hk] at h
+    | owning st => cases st <;> simp [release, hl, hk] at h
+    | frombuf src rel => cases rel <;> simp [release, hl, hk] at h
+    | gcp d orig =>
+      have e : release s x = (s.set x { finalizeGcp o with released := true },
+          .ok (if fires o then [x] else [])) := by
+        unfold release; simp [hl, hk]
+      rw [e] at h ⊢
+      have hw : w = x := by
+        by_cases hf : fires o = true
+        · simp [hf] at h; exact h.1.symm
+        · simp [hf] at h
+      subst hw
+      exact ⟨{ finalizeGcp o with released := true }, by simp, by simp [finalizeGcp, hk], rfl⟩
+    | structptr sid =>
+      cases hs : s.live sid with
+      | none => simp [release, hl, hk, hs] at h
+      | some os =>
+        cases hks : os.kind with
+        | gcp d orig =>
+          have e : release s x = (s.set sid { finalizeGcp os with released := true },
+              .ok (if fires os then [sid] else [])) := by
+            unfold release; simp [hl, hk, hs, hks]
+          rw [e] at h ⊢
+          have hw : w = sid := by
+            by_cases hf : fires os = true
+            · simp [hf] at h; exact h.1.symm
+            · simp [hf] at h
+          subst hw
+          exact ⟨{ finalizeGcp os with released := true }, by simp, by simp [finalizeGcp, hks], rfl⟩
+        | py t fl => simp [release, hl, hk, hs, hks] at h
+        | frame pins => simp [release, hl, hk, hs, hks] at h
+        | handle a b => simp [release, hl, hk, hs, hks] at h
+        | owning st => simp [release, hl, hk, hs, hks] at h
+        | frombuf src rel => simp [release, hl, hk, hs, hks] at h
+        | structptr s2 => simp [release, hl, hk, hs, hks] at h
+
 end CffiVerif.Ownership
